@@ -289,6 +289,8 @@ def recheck(t, when):
         raw = e.raw
         try:
             now = (rpath(raw.path), layout.tname(raw.type), None if raw.value is ... else int(raw.value))
+            if getattr(t, "rooted", False):
+                now = (_unroot(now[0], []),) + now[1:]
         except Exception as ex:
             now = ("<unreadable>", type(ex).__name__, None)
         if now != (e.path, e.tname, e.value):
@@ -325,8 +327,45 @@ def open_decode(tpm_type, data, strict=True, cc=None, enc=None):
     return Binary.marshal(**kwargs)
 
 
-def run(*args, **kwargs):
+ROOT = (("log", None), ("msg", None))
+
+
+def _unroot(p, esc):
+    """Path below the test root -> the path the same field has under the default root."""
+    if not isinstance(p, tuple) or not p:
+        return p
+    if p[1 : 1 + len(ROOT)] == ROOT:
+        return p[:1] + p[1 + len(ROOT) :]
+    esc.append(p)
+    return p
+
+
+def run(*args, rooted=False, **kwargs):
+    """rooted=True: the decode is given root_path='.log.msg'; every recorded path (events, warnings, error) is then mapped
+    back to the default root so that all comparisons stay as they are; a path that does not lie under the root it was
+    given is kept and reported in ``t.root_escapes``."""
+    if rooted:
+        from tpmstream.common.path import Path
+
+        mk = dict(kwargs.get("marshal_kwargs") or {})
+        mk["root_path"] = Path.from_string("." + ".".join(n for n, _ in ROOT))
+        kwargs["marshal_kwargs"] = mk
     t = _run(*args, **kwargs)
+    t.root_escapes = []
+    if rooted:
+        esc = t.root_escapes
+        for e in t.events:
+            if e.kind == "M":
+                e.path = _unroot(e.path, esc)
+            elif e.err:
+                for k in ("cpath", "vpath"):
+                    if e.err.get(k) is not None:
+                        e.err[k] = _unroot(e.err[k], esc)
+        if t.outcome and t.outcome[0] == "constraint":
+            for k in ("cpath", "vpath"):
+                if t.outcome[1].get(k) is not None:
+                    t.outcome[1][k] = _unroot(t.outcome[1][k], esc)
+        t.rooted = True
     try:
         t.tname = args[0] if isinstance(args[0], str) else getattr(args[0], "__name__", str(args[0]))
         t.args = dict(strict=kwargs.get("strict", True), cc=kwargs.get("cc"), enc=kwargs.get("enc"))
